@@ -39,8 +39,19 @@ body for `region="pin"` targets), `srcSignature_<function>`, `srcConversions_<f>
 """
 import ast, os, re
 
-from .py2lean import (Shape, LEAN_RESERVED, dotted, lean_str, unparse_with_holes, strip_doc, GEN, bindings_section,
+from .py2lean import (Shape, LEAN_RESERVED, lean_str, unparse_with_holes, strip_doc, GEN, bindings_section,
                       render_signature, signature_text, sanitize, not_translated, not_translated_comment)
+
+
+def dotted(node):
+    """`a.b.c` of a Name / Attribute chain, else None"""
+    parts = []
+    while isinstance(node, ast.Attribute):
+        parts.append(node.attr)
+        node = node.value
+    if isinstance(node, ast.Name):
+        return ".".join([node.id] + parts[::-1])
+    return None
 
 
 # ----------------------------------------------------------------------------- types and values
@@ -419,6 +430,7 @@ class Tr:
             return v
         if isinstance(node, ast.Tuple):
             cs = [self.expr(e) for e in node.elts]
+            cs = [self.materialise(c) if c.vec is not None else c for c in cs]
             if any(c.lit is not None or c.ty is None for c in cs):
                 return V(None, None, comps=cs)
             return V("(%s)" % ", ".join(c.t for c in cs), T(*[c.ty for c in cs]), 100, comps=cs)
@@ -542,6 +554,12 @@ class Tr:
             v = self.materialise(v)
         if v.ty is None:
             raise Shape("subscript of %s" % ast.unparse(node.value))
+        if isinstance(s, ast.Tuple) and len(s.elts) == 2 and all(isinstance(e, ast.Slice) for e in s.elts) and v.ty == MAT:
+            a, b = s.elts
+            if a.lower is None and a.upper is None and a.step is None and b.lower is None and self.const_int(b.upper) == -1 \
+                    and b.step is None:
+                return V("dropLastCol %s" % paren(v, 100), MAT, 90)
+            raise Shape("slice %s" % ast.unparse(node))
         if isinstance(s, ast.Slice):
             lo, hi, st = s.lower, s.upper, s.step
             if v.ty.k == "L" and lo is None and hi is None and self.const_int(st) == -1:
@@ -807,6 +825,9 @@ class Tr:
             def then(v):
                 if v.comps is None and (v.ty is None or v.ty.k != "T"):
                     raise Shape("unpacking of a non-tuple")
+                if v.comps is None and not re.match(r"^[\w.']+$", v.t):
+                    tmp = self.fresh("t")
+                    return Let(tmp, v.ty.lean(), v.t, then(V(tmp, v.ty)))
                 cs = v.comps if v.comps is not None else self.components(v)
                 if len(cs) != len(names):
                     raise Shape("unpacking %d values into %d names" % (len(cs), len(names)))
@@ -825,6 +846,16 @@ class Tr:
                 if tmatch(tpl, tgt, b):
                     return self.under(lambda: handler(self, b, value), lambda v: self.let(tgt.value.id, v, k))
             py = tgt.value.id
+            sl = self.lookup(tgt.slice.id) if isinstance(tgt.slice, ast.Name) else None
+            if sl is not None and sl.ty == T(L(N), L(Z)):            # M[(rows, cols)] = vals
+                def scat():
+                    m, vals = self.expr(tgt.value), self.expr(value)
+                    if m.ty != MAT or vals.ty != L(N):
+                        raise Shape("scatter assignment %s" % ast.unparse(tgt))
+                    rows, cols = self.components(sl)
+                    return self.bind_value("scatter2 %s %s %s %s" % (paren(m, 100), paren(rows, 100), paren(cols, 100), paren(vals, 100)),
+                                           MAT, hint=py)
+                return self.under(scat, lambda v: self.rebind(py, v, k))
 
             def val():
                 l = self.expr(tgt.value)
@@ -1249,8 +1280,59 @@ def group_binders(binders):
     return " ".join("(%s : %s)" % (" ".join(ns), ty.lean()) for ns, ty in groups)
 
 
-IDIOMS = []          # (template ast, handler(tr, bindings, node) -> V)         filled below
+IDIOMS = []          # (template ast, handler(tr, bindings, node) -> V)
 STORE_IDIOMS = []    # (template ast of the target, handler(tr, bindings, value node) -> V of the updated array)
+IDIOM_DOC = []       # (python pattern, lean, meaning)  for the generated header
+
+
+def idiom(pattern, lean, meaning):
+    def deco(fn):
+        IDIOMS.append((template(pattern), fn))
+        IDIOM_DOC.append((pattern, lean, meaning))
+        return fn
+    return deco
+
+
+def _arg(tr, node, ty):
+    v = tr.expr(node)
+    if v.vec is not None:
+        v = tr.materialise(v)
+    return tr.cast(v, ty)
+
+
+@idiom("np.unique(_M + 1j * np.arange(len(_M))[:, None], return_counts=True)", "uniqueCounts cpxLt (tagRows M)",
+       "the distinct complex numbers `M[r][c] + r·j` as pairs (real, imaginary) in NumPy's order, with their numbers of occurrences")
+def _unique_tagged(tr, b, node):
+    m = _arg(tr, b["_M"], MAT)
+    return V("uniqueCounts cpxLt (tagRows %s)" % paren(m, 100), T(L(CPX), L(N)), 90)
+
+
+@idiom("determine_optimal_int_type(_A)", "(erased)", "a dtype: only used in `astype` / `dtype=` positions, which are the identity "
+       "(its `ValueError` beyond int64 is not modelled)")
+def _dtype(tr, b, node):
+    _arg(tr, b["_A"], N)
+    tr.conversions.append(ast.unparse(node))
+    return V("()", DTYPE)
+
+
+@idiom("np.zeros((_A, _B), dtype=_T)", "zeros2 A B", "the A×B matrix of zeros of an integer dtype")
+def _zeros(tr, b, node):
+    a, c = _arg(tr, b["_A"], N), _arg(tr, b["_B"], N)
+    tr.dtype_arg(b["_T"])
+    tr.conversions.append(ast.unparse(node))
+    return V("zeros2 %s %s" % (paren(a, 100), paren(c, 100)), MAT, 90)
+
+
+@idiom("np.imag(_U)", "U.map (·.2)", "imaginary parts of a vector of complex numbers")
+def _imag(tr, b, node):
+    u = _arg(tr, b["_U"], L(CPX))
+    return V(None, None, vec=(u, lambda z: V("%s.2" % z.t, N, 100, nonneg=True)))
+
+
+@idiom("np.real(_U)", "U.map (·.1)", "real parts of a vector of complex numbers")
+def _real(tr, b, node):
+    u = _arg(tr, b["_U"], L(CPX))
+    return V(None, None, vec=(u, lambda z: V("%s.1" % z.t, N, 100, nonneg=True)))
 
 
 # ----------------------------------------------------------------------------- targets (fixed; reviewed against Model/MGH.lean)
@@ -1331,20 +1413,42 @@ TARGETS.append(dict(
          "exception, termination within `len(v) + len(u) + 1` rounds, and the model's answer"),
     ]))
 
+# ---- represent_distance_matrix_rows_as_distributions  ->  rowsAsDistributions
+TARGETS.append(dict(
+    func="represent_distance_matrix_rows_as_distributions", lean="represent_distance_matrix_rows_as_distributions",
+    params=[("DX", MAT), ("max_d", N)], ret=MAT, skeleton="...",
+    conversions=["determine_optimal_int_type(len(DX))", "int(max_d)", "np.zeros((len(DX), int(max_d) + 1), dtype=optimal_int_type)",
+                 "np.imag(unique_distances).astype(optimal_int_type)", "np.real(unique_distances).astype(max_d.dtype)"],
+    obligations=[
+        ("src_represent_distance_matrix_rows_as_distributions_eq_model",
+         "(DX : List (List Nat)) (max_d : Nat) (h : ∀ row ∈ DX, ∀ x ∈ row, x ≤ max_d)",
+         "represent_distance_matrix_rows_as_distributions DX max_d = .ok (rowsAsDistributions DX max_d)",
+         "by\n  obtain ⟨M, h1, h2⟩ := represent_scatter DX max_d h\n"
+         "  simp only [represent_distance_matrix_rows_as_distributions, h1, h2]",
+         "`np.unique` of the row-tagged entries with counts, the scatter of the counts at `(row, max_d - distance)` into the zero "
+         "matrix and the removal of the last column (distance 0): for a matrix whose entries are `≤ max_d` (the docstring's "
+         "precondition; `find_lb` passes `max_diam`) no index is out of range or negative, and the result is the model's "
+         "`rowsAsDistributions` (each row: the frequencies of the distances `max_d, …, 1`)"),
+    ]))
+
 
 BINDINGS = {KEY: [
     ('StopIteration', 'builtin'),
     ('check_assignment_feasibility', 'def check_assignment_feasibility'),
+    ('determine_optimal_int_type', 'def determine_optimal_int_type'),
     ('int', 'builtin'),
     ('len', 'builtin'),
     ('list', 'builtin'),
     ('max', 'builtin'),
     ('min', 'builtin'),
     ('next', 'builtin'),
+    ('np', 'import numpy as np'),
     ('range', 'builtin'),
+    ('represent_distance_matrix_rows_as_distributions', 'def represent_distance_matrix_rows_as_distributions'),
 ]}
 SIGNATURES = {
     'check_assignment_feasibility': 'def check_assignment_feasibility(v_distribution, u_distribution, d)',
+    'represent_distance_matrix_rows_as_distributions': 'def represent_distance_matrix_rows_as_distributions(DX, max_d)',
 }
 
 
@@ -1394,7 +1498,10 @@ HEADER = (
     "set_option linter.unusedSimpArgs false\n\n"
     "namespace %s\nopen %s\n")
 
-TABLE_NOTE = "`l[k]`, `l[k] = e`, `range`, `next` of a generator expression, `len`, `max`, `min`, `abs`, `int`, `list`, `l[::-1]`"
+TABLE_NOTE = ("`l[k]` (`getItem`), `l[k] = e` (`setItem`), `range` (`pyRange`), `next` of a generator expression (`nextWhere`), `len`, `max`,\n"
+              "    `min`, `abs`, `int`, `list`, `l[::-1]` (`reverse`), `l[1:]` (`tail`), `M[(rows, cols)] = vals` (`scatter2`), `M[:, :-1]` (`dropLastCol`),\n"
+              "    `x.astype(t)` (identity) and the NumPy idioms "
+              + "; ".join("`%s` ↦ `%s`" % (p, l) for p, l, _ in IDIOM_DOC))
 PARAM_NOTE = "none so far"
 
 
